@@ -179,6 +179,7 @@ def parseOp (w : Nat) (toks : List String) : Op :=
   | ["internreq", n] => orBad (n.toNat?.map Op.internreq)
   | ["interncopy", h] => orBad ((parseHexBytes h).map Op.interncopy)
   | ["cached", h] => orBad ((parseHexBytes h).map Op.cached)
+  | ["cacheds", h] => orBad ((parseHexBytes h).map Op.cached)
   | ["box", "null"] => .boxNull
   | ["box", "bool", n] => orBad (n.toNat?.map (fun n => Op.boxBool (n != 0)))
   | ["box", "err", n] => orBad (n.toNat?.map Op.boxErr)
